@@ -165,6 +165,11 @@ struct CountingCallback {
     }
     reinterpret_cast<Inner*>(inner)->~Inner();   // the real deregistration (may wait for a running callback)
     --w->root_regs;
+    if (w->op_destroyed && w->root_cb_running_on != rt::self()) {
+      // somebody else signalled the receiver while this thread was waiting inside the deregistration
+      rt::fail("operation state destroyed (receiver signalled by another thread) while the elected completer was still deregistering the stop callback");
+      halt_thread();
+    }
   }
 };
 
